@@ -2544,20 +2544,21 @@ CASEGENS.append(cases_meta)
 
 HFLAGS = {'jobz': ['N', 'V'], 'uplo': ['L', 'U'], 'trans': ['N', 'T', 'C'], 'range': ['A', 'V', 'I'],
           'jobu': ['N', 'A', 'S', 'O'], 'jobvt': ['N', 'A', 'S', 'O'], 'side': ['L', 'R'], 'diag': ['N', 'U'],
-          'itype': [1, 2, 3]}
+          'itype': [1, 2, 3], 'transA': ['N', 'T', 'C'], 'transB': ['N', 'T', 'C']}
+HOMIT = '<omitted>'       # the flag keyword is not passed at all: the documented default must apply, whatever was passed before
 HFLAGS_FN = {('gesdd', 'jobz'): ['N', 'A', 'S', 'O'], ('lacpy', 'uplo'): ['N', 'L', 'U']}
 HOPTMAT = ('ipiv', 'w', 'a', 'b', 'V', 'Vl', 'Vr', 'U', 'Vt', 'Z')
 
 
-def _hist_configs(name):
-    import itertools
-    from cvxopt import lapack
+def _hist_configs(name, modname='lapack'):
+    import itertools, importlib
     from checks import C19
-    sg = C19._lapack_sig(getattr(lapack, name))
+    mod = importlib.import_module('cvxopt.' + modname)
+    sg = C19._lapack_sig(getattr(mod, name))
     if sg is None:
         return None, []
     pos, kws = sg
-    flags = [(k, HFLAGS_FN.get((name, k), HFLAGS[k])) for k, d in kws if k in HFLAGS]
+    flags = [(k, [HOMIT] + HFLAGS_FN.get((name, k), HFLAGS[k])) for k, d in kws if k in HFLAGS]
     optm = [k for k, d in kws if k in HOPTMAT]
     cfgs = []
     for n in (3, 4):
@@ -2567,11 +2568,11 @@ def _hist_configs(name):
     return (pos, optm), cfgs
 
 
-def _hist_args(name, sig, cfg):
+def _hist_args(name, sig, cfg, modname='lapack'):
     from cvxopt import matrix
     pos, optm = sig
     n = cfg['n']
-    tc = 'z' if name[:2] in ('he', 'un') else 'd'
+    tc = 'z' if name[:2] in ('he', 'un') or name in ('dotu', 'geru') else 'd'
     def sq():
         return matrix([(4.0 + i // (n + 1)) if i % (n + 1) == 0 else (0.5 if (i // n + i % n) % 2 else -0.25)
                        for i in range(n * n)], (n, n), tc)
@@ -2588,10 +2589,12 @@ def _hist_args(name, sig, cfg):
         elif nm == 'm':
             args.append(n)
         elif nm == 'alpha':
-            args.append(matrix([1.5], (1, 1), tc))
+            args.append(matrix([1.5], (1, 1), tc) if modname == 'lapack' else 1.5)
+        elif modname == 'blas' and nm in ('x', 'y'):
+            args.append(matrix([2.0 + i for i in range(n)], (n, 1), tc))
         else:
             args.append(sq())
-    kw = dict(cfg['flags'])
+    kw = dict((k, v) for k, v in cfg['flags'].items() if v != HOMIT)
     if cfg['opt']:
         for k in optm:
             if k == 'ipiv':
@@ -2605,12 +2608,13 @@ def _hist_args(name, sig, cfg):
     return args, kw
 
 
-def _hist_call(name, sig, cfg):
+def _hist_call(name, sig, cfg, modname='lapack'):
     """one call; observation = outcome + contents of every matrix argument afterwards"""
-    from cvxopt import lapack
-    args, kw = _hist_args(name, sig, cfg)
+    import importlib
+    mod = importlib.import_module('cvxopt.' + modname)
+    args, kw = _hist_args(name, sig, cfg, modname)
     try:
-        r = getattr(lapack, name)(*args, **kw)
+        r = getattr(mod, name)(*args, **kw)
         out = ['ok', repr(r)]
     except Exception as e:
         out = ['exc', type(e).__name__, str(e)[:60]]
@@ -2633,10 +2637,10 @@ def _hist_same(o1, o2):
     return True
 
 
-def _hist_server(name):
+def _hist_server(name, modname='lapack'):
     """runs in a fresh interpreter (nothing called yet); prints a JSON summary"""
     import json, os, pickle, sys
-    sig, cfgs = _hist_configs(name)
+    sig, cfgs = _hist_configs(name, modname)
     res = {'configs': len(cfgs), 'histories': 0, 'states': 0, 'diffs': [], 'outcomes': {}}
     if not cfgs:
         print(json.dumps(res)); return
@@ -2650,7 +2654,7 @@ def _hist_server(name):
                 os.close(r)
                 o = None
                 for cf in hist:
-                    o = _hist_call(name, sig, cf)
+                    o = _hist_call(name, sig, cf, modname)
                 os.write(w, pickle.dumps(o))
             except BaseException:
                 code = 3
@@ -2686,7 +2690,7 @@ def _hist_server(name):
             for a in cfgs:
                 after = None
                 for cf in reset + [a, b]:
-                    after = _hist_call(name, sig, cf)
+                    after = _hist_call(name, sig, cf, modname)
                 res['histories'] += 1
                 seen.add(repr(after))
                 if not _hist_same(alone[(pre, bi)], after) and len(res['diffs']) < 6:
